@@ -20,10 +20,12 @@ func register(m fw.Monitor) { All[m.ID()] = m }
 // base supplies defaults.
 type base struct{}
 
-func (base) Level() string                      { return "exploration" }
-func (base) Assumptions() []string              { return []string{"Go toolchain", "the harness's reference models (harness/model), written independently of /repo"} }
+func (base) Level() string { return "exploration" }
+func (base) Assumptions() []string {
+	return []string{"Go toolchain", "the harness's reference models (harness/model), written independently of /repo"}
+}
 func (base) RequiredBuckets(tier string) []string { return nil }
-func (base) Findings() []fw.Finding             { return nil }
+func (base) Findings() []fw.Finding               { return nil }
 
 // locKind names the top-level shape of a location for buckets.
 func locKind(loc gts.Location) string {
